@@ -104,6 +104,46 @@ func c20Pairing(v *verifOut) {
 		for _, agg := range []bool{false, true} {
 			for k := 1; k <= n; k++ {
 				kk := fmt.Sprintf("k=%d", k)
+				// prop-qc-k: a ProposeMsg from the view's leader WITHOUT aggregate QC whose block QC has exactly k distinct
+				// genuine signers over the known block b1 (block view = QC view + 1 = the replica's view, reached with a
+				// valid TC for view 1), under both timeout rules.  It takes effect (a vote is signed / the high QC moves)
+				// iff k >= QuorumSize(n).
+				{
+					w := c07NewWorld(u, agg, 2, c07Opt{stored: c07Stored, remote: c07Remote})
+					w.apply(c07Stim{Op: "newview", NoNet: true, SI: &c07SISpec{TC: &c07TCSpec{Kind: "valid", View: 1}}})
+					before := w.obs()
+					signedBefore := c20OwnSigs(w)
+					st := c07Stim{Op: "propose", View: 2, From: 2, Parent: "b1", SI: &c07SISpec{QC: &c07QCSpec{Kind: kk, Block: "b1"}}}
+					pan := w.apply(st)
+					after := w.obs()
+					voted := c20OwnSigs(w) > signedBefore
+					accepted := voted || after.hqHash != before.hqHash || after.hqView != before.hqView
+					rule := "simple"
+					if agg {
+						rule = "aggregate"
+					}
+					meta := map[string]any{"component": "synchronizer+voter", "family": "prop-qc-k", "entry": "propose", "timeout_rule": rule, "scheme": scheme,
+						"n": n, "quorum": q, "k": k, "stimulus": st, "before": before.term(), "after": after.term(), "voted": voted}
+					v.Seen(fmt.Sprintf("pair/prop-qc-k/%s/%d/%d", rule, n, k), k == q || k == q-1, meta)
+					v.Count("pairing:prop-qc-k:propose")
+					if pan != nil {
+						v.Oracle(false, "threshold:synchronizer:panic", fmt.Sprint(pan), meta)
+					} else if before.view != 2 {
+						v.Oracle(false, "threshold:synchronizer:prop-qc-k-setup", "a valid TC for view 1 did not bring the replica to view 2", meta)
+					} else {
+						v.Case(s, fmt.Sprintf("(%s,%s,%s)", gZ(int64(n)), gZ(int64(k)), gBool(accepted)), meta)
+						switch {
+						case accepted && k < q:
+							v.Oracle(false, "threshold:synchronizer:prop-qc-k-below-quorum-took-effect",
+								fmt.Sprintf("n=%d quorum=%d %s rule: a proposal whose block QC has only %d distinct signers was voted for (%v) / adopted as high QC (%s -> %s)", n, q, rule, k, voted, before.term(), after.term()), meta)
+						case !accepted && k >= q:
+							v.Oracle(false, "threshold:synchronizer:prop-qc-k-at-quorum-rejected",
+								fmt.Sprintf("n=%d quorum=%d %s rule: a proposal whose block QC has %d distinct signers was neither voted for nor adopted", n, q, rule, k), meta)
+						default:
+							v.Oracle(true, "", "", nil)
+						}
+					}
+				}
 				for _, wv := range []uint64{1, 2, 3} {
 					type fam struct {
 						name    string
@@ -187,6 +227,9 @@ func c20Pairing(v *verifOut) {
 		}
 	}
 }
+
+// c20OwnSigs: how many messages the replica under test has signed itself in this world (votes, timeouts)
+func c20OwnSigs(w *c07World) int { return w.signed }
 
 func c20Distinct(sig hotstuff.QuorumSignature) int {
 	if sig == nil {
